@@ -317,7 +317,20 @@ func (e *Eval) Walk(b, prev *ssa.BasicBlock, stop func(*ssa.BasicBlock) bool, ma
 				if !ok {
 					break
 				}
-				v, ok := cur.Val(ph)
+				// the incoming edge is evaluated in the environment of the previous block (the phi's own stale value from
+				// an earlier iteration must not answer for it); pinned phis keep their value
+				var v constant.Value
+				ok = false
+				if pv, pinned := e.Env[ph]; pinned {
+					v, ok = pv, true
+				} else if prev != nil {
+					for i, p := range b.Preds {
+						if p == prev {
+							v, ok = cur.Val(ph.Edges[i])
+							break
+						}
+					}
+				}
 				phis = append(phis, ph)
 				if ok {
 					vals = append(vals, v)
